@@ -26,7 +26,7 @@ cleanup() { rm -rf "$BIN" "$BIN.sched" "$BIN.race" "$OV" "$MODFILE" "$VERIF/.bin
 # owns it), which makes use-after-Put deterministic in a single goroutine.
 rm -rf "$OV"; mkdir -p "$OV"
 OVERLAY=""
-if go run -modfile="$MODFILE" ./cmd/overlaygen -repo "$REPO" -rt "$VERIF/mc/schedrt" -out "$OV" . band backend/joinserver backend applayer/clocksync applayer/multicastsetup applayer/fragmentation applayer/firmwaremanagement airtime gps > "$OV/gen.log" 2>&1; then
+if go run -modfile="$MODFILE" ./cmd/overlaygen -recv band,backend/joinserver -repo "$REPO" -rt "$VERIF/mc/schedrt" -out "$OV" . band backend/joinserver backend applayer/clocksync applayer/multicastsetup applayer/fragmentation applayer/firmwaremanagement airtime gps > "$OV/gen.log" 2>&1; then
   OVERLAY="$OV/overlay.json"
 fi
 built=0
